@@ -14,7 +14,6 @@ package serf
 //
 //vf:unwind 16
 //vf:bound state event buffer of length quick=1..2 thorough=1..3, slots empty or symbolic time with <=1 record; all times symbolic (below 2^62)
-//vf:nonative
 func VfC05_FirstDelivered() {
 	nmax := 2
 	if vfTier() == 1 {
@@ -63,7 +62,6 @@ func VfC05_FirstDelivered() {
 //
 //vf:unwind 16
 //vf:bound state event buffer of length 2; payload with <=1 event; times symbolic below 2^62
-//vf:nonative
 func VfC05_PushPull() {
 	s := vfNewSerf("self", 2)
 	vfArbEventBuffer(s, 2)
@@ -94,5 +92,4 @@ func VfC05_PushPull() {
 //
 //vf:unwind 16
 //vf:bound state event buffer of length quick=2 thorough=3, each slot empty or a symbolic time with <=1 recorded event; names/payloads 1 symbolic byte; times below 2^62
-//vf:nonative
 func VfC05_EventABA() { vfEventABA() }
